@@ -64,6 +64,7 @@ func (c *countingEffect) Exec() error { c.n++; return nil }
 
 // cbWorld is one breaker under simulation together with everything observed.
 type cbWorld struct {
+	abandoned        func() bool  // draws whether the next request arrives with its context already cancelled
 	handler          http.Handler // the protected handler (for re-wrapping)
 	r                *simkit.Run
 	cfg              cbConfig
@@ -206,8 +207,16 @@ func (w *cbWorld) observe() string {
 func (w *cbWorld) arrive() *cbReq {
 	q := &cbReq{id: len(w.reqs), rec: simkit.NewRecorder()}
 	w.reqs = append(w.reqs, q)
+	ctx := context.WithValue(context.Background(), ctxKey{}, q)
+	if w.abandoned != nil && w.abandoned() {
+		// the client has already given up on this request (its context is cancelled): the breaker decides as for any other
+		c, cancel := context.WithCancel(ctx)
+		cancel()
+		ctx = c
+		w.r.Fault("request-already-abandoned")
+	}
 	req := (&http.Request{Method: "GET", URL: &url.URL{Scheme: "http", Host: "sim", Path: "/"}, Header: http.Header{}, Host: "sim", RemoteAddr: "10.0.0.1:1"}).
-		WithContext(context.WithValue(context.Background(), ctxKey{}, q))
+		WithContext(ctx)
 	q.task = w.sim.Spawn(fmt.Sprintf("req%d", q.id), func() {
 		q.invokeSeq = w.sim.Seq
 		defer func() { q.done = true; q.doneSeq = w.sim.Seq; q.evalSeq = q.task.LastAcq }()
